@@ -57,6 +57,15 @@ def prepare_events(events, backend_like):
     return events, is_terminal, direction, last_occurrence, requires_dstate
 ##### ---- #####
 
+def _probe_offset(t_prev, t_next, eps, power):
+    """Signed distance from a located root at which an event function is sampled to classify the
+    crossing: the step scaled by eps**power, but never less than a few spacings of floating point
+    numbers at the step, so that the samples stay distinct from the root at any magnitude of t."""
+    width = (t_next - t_prev) * eps ** power
+    floor = 4 * eps * D.ar_numpy.maximum(D.ar_numpy.abs(t_prev), D.ar_numpy.abs(t_next))
+    return D.ar_numpy.where(D.ar_numpy.abs(width) >= floor, width, D.ar_numpy.sign(t_next - t_prev) * floor)
+
+
 def handle_events(sol_tuple, events, consts, direction, is_terminal, attributes):
     """Helper function to handle events.
     Parameters
@@ -110,9 +119,9 @@ def handle_events(sol_tuple, events, consts, direction, is_terminal, attributes)
         verbose=False
     )
 
-    g = [ev_f[idx](t_root - (t_next - t_prev) * D.epsilon(roots[0].dtype) ** 0.5) for idx, t_root in enumerate(roots)]
+    g = [ev_f[idx](t_root - _probe_offset(t_prev, t_next, D.epsilon(roots[0].dtype), 0.5)) for idx, t_root in enumerate(roots)]
     g_cen = [ev_f[idx](t_root) for idx, t_root in enumerate(roots)]
-    g_new = [ev_f[idx](t_root + (t_next - t_prev) * D.epsilon(roots[0].dtype) ** 0.5) for idx, t_root in enumerate(roots)]
+    g_new = [ev_f[idx](t_root + _probe_offset(t_prev, t_next, D.epsilon(roots[0].dtype), 0.5)) for idx, t_root in enumerate(roots)]
 
     g = D.ar_numpy.stack(g)
     g_cen = D.ar_numpy.stack(g_cen)
@@ -125,9 +134,9 @@ def handle_events(sol_tuple, events, consts, direction, is_terminal, attributes)
     down = ((g >= 0) & (g_new <= 0)) | ((g >= 0) & (g_cen <= 0)) | ((g_cen >= 0) & (g_new <= 0))
 
     for receptive_field in [1.0, 2.0, 3.0]:
-        g = [ev_f[idx](t_root - receptive_field * (t_next - t_prev) * D.epsilon(roots[0].dtype) ** 0.75) for idx, t_root in
+        g = [ev_f[idx](t_root - receptive_field * _probe_offset(t_prev, t_next, D.epsilon(roots[0].dtype), 0.75)) for idx, t_root in
              enumerate(roots)]
-        g_new = [ev_f[idx](t_root + receptive_field * (t_next - t_prev) * D.epsilon(roots[0].dtype) ** 0.75) for idx, t_root in
+        g_new = [ev_f[idx](t_root + receptive_field * _probe_offset(t_prev, t_next, D.epsilon(roots[0].dtype), 0.75)) for idx, t_root in
                  enumerate(roots)]
 
         g = D.ar_numpy.stack(g)
